@@ -33,11 +33,11 @@ NCH = 16
 def run(chk):
     chk.section("update_inout_ports", lambda: ports(chk))
     chk.section("function-type", lambda: fntype(chk))
+    chk.section("dfcontainer", lambda: dfcontainer(chk))
     for i in range(NCH):
         chk.section(f"bounded-{i}", lambda i=i: bounded(chk, i))
     chk.expected_min_obligations = 60
     chk.assumptions += ["the callee's definition returns its borrowed parameters after the regular results in parameter order (compile_cfg / function compilation; exercised by the bounded layer, not proved here)",
-                        "DFContainer.__setitem__ stores a wire for a place and updates the enclosing struct/tuple places (C01's subject)",
                         "argument lists of length <= 3 are enumerated"]
     chk.not_covered += ["qubit-typed borrowed values on the emulator (bounded layer uses int arrays, structs, nested arrays, tuples)", "comptime functions"]
 
@@ -196,3 +196,223 @@ def bounded(chk, i):
                            func=f"{EC}:ExprCompiler._update_inout_ports")
     if w:
         o.replay.update({"script": ORACLE + REPLAY_ONE, "input": {"ops": w["ops"]}})
+
+
+def dfcontainer(chk):
+    """DFContainer.__getitem__ / __setitem__ (compiler/core.py), the wire table that receives the
+    values a call hands back, as an abstract map  leaf place -> current value : for every sequence of
+    at most 4 operations {assign the whole struct/tuple, assign one leaf, read the whole, read one
+    leaf} on a pair-shaped place (tuple and struct; copyable and linear leaves) and on a nested one,
+    every read returns a wire whose VALUE — computed from the MakeTuple / UnpackTuple nodes the
+    container adds — is the tuple of the current leaf values; in particular a packed wire cached by
+    an earlier read is never returned after the place (or a leaf) was assigned again."""
+    import itertools
+    CC = "guppylang_internals.compiler.core"
+    CORE = "guppylang_internals.checker.core"
+    TYM = "guppylang_internals.tys.ty"
+    e = mk_engine(chk)
+    for q in ("DFContainer.__getitem__", "DFContainer.__setitem__"):
+        e.func_info(CC, q)
+
+    def norm(v):
+        """values: ("w", k) | ("tuple", v0, v1, ..) | ("proj", i, v); beta and eta reduced"""
+        if v[0] == "proj":
+            b = norm(v[2])
+            return b[1 + v[1]] if b[0] == "tuple" else ("proj", v[1], b)
+        if v[0] == "tuple":
+            kids = [norm(x) for x in v[1:]]
+            if kids and all(k[0] == "proj" and k[1] == i and k[2] == kids[0][2] for i, k in enumerate(kids)):
+                return kids[0][2]          # (proj_0 x, .., proj_n x) = x
+            return ("tuple", *kids)
+        return v
+
+    shapes = {"tuple2": ("T", ["L", "L"]), "struct2": ("S", ["L", "L"]), "nested": ("T", [("S", ["L", "L"]), "L"])}
+
+    def leaves_of(sh, path=()):
+        if sh == "L":
+            return [path]
+        out = []
+        for i, c in enumerate(sh[1]):
+            out += leaves_of(c, path + (i,))
+        return out
+    n_ok = 0
+    for sname, sh in shapes.items():
+        lv = leaves_of(sh)
+        ops_all = [("set-whole",), ("get-whole",)] + [("set-leaf", p) for p in lv] + [("get-leaf", p) for p in lv]
+        seqs = [s for k in (1, 2, 3, 4) for s in itertools.product(ops_all, repeat=k)]
+        if chk.tier != "thorough":
+            seqs = [s for i, s in enumerate(seqs) if len(s) < 3 or i % (7 if sname != "nested" else 61) == 0 or (s[0] == ("get-whole",) and s[-1] == ("get-whole",) and sname != "nested")]
+        for linear in (False, True):
+            def t(it, sh=sh, linear=linear, seqs=seqs):
+                m = e.module(CC)
+                V, FA, TA = (it.lookup_global(e.module(CORE), k) for k in ("Variable", "FieldAccess", "TupleAccess"))
+                TT, ST = it.lookup_global(e.module(TYM), "TupleType"), it.lookup_global(e.module(TYM), "StructType")
+                IF = it.lookup_global(e.module(TYM), "InputFlags")
+                leafty = SObj(ClassVal("LeafTy", builtin=True), {"linear": linear, "to_hugr": Builtin("to_hugr", lambda c: "H")})
+
+                def mkty(s):
+                    if s == "L":
+                        return leafty
+                    kids = [mkty(c) for c in s[1]]
+                    if s[0] == "T":
+                        return SObj(TT, {"element_types": kids, "args": [], "linear": linear, "to_hugr": Builtin("to_hugr", lambda c: "H")})
+                    fl = [SObj(ClassVal("StructField", builtin=True), {"name": f"f{i}", "ty": k}) for i, k in enumerate(kids)]
+                    return SObj(ST, {"fields": fl, "args": [], "defn": SObj(ClassVal("Defn", builtin=True), {"name": "S"}), "linear": linear, "to_hugr": Builtin("to_hugr", lambda c: "H")})
+                ty = mkty(sh)
+                root = SObj(V, {"name": "x", "ty": ty, "defined_at": None, "flags": it.getattr(IF, "NoFlags"), "is_func_input": False})
+
+                def place(path):
+                    p, t_ = root, ty
+                    for i in path:
+                        if t_.cls is TT:
+                            t_ = t_.fields["element_types"][i]
+                            p = SObj(TA, {"parent": p, "elem_ty": t_, "index": i, "exact_defined_at": None})
+                        else:
+                            f = t_.fields["fields"][i]
+                            t_ = f.fields["ty"]
+                            p = SObj(FA, {"parent": p, "field": f, "exact_defined_at": None})
+                    return p
+                results = []
+                for seq in seqs:
+                    val = {}
+                    cnt = [0]
+
+                    def fresh(v):
+                        cnt[0] += 1
+                        w = ("wire", cnt[0])
+                        val[w] = v
+                        return w
+
+                    def add_op(op, *wires):
+                        if op[0] == "MakeTuple":
+                            return [fresh(("tuple", *[val[w] for w in wires]))]
+                        return [fresh(("proj", i, val[wires[0]])) for i in range(op[1])]
+                    e.ext_models["hugr.ops.MakeTuple"] = lambda it2, a, k: ("MakeTuple", len(a[0]))
+                    e.ext_models["hugr.ops.UnpackTuple"] = lambda it2, a, k: ("UnpackTuple", len(a[0]))
+                    DF = it.lookup_global(m, "DFContainer")
+                    builder = SObj(ClassVal("Builder", builtin=True), {"add_op": Builtin("add_op", add_op)})
+                    dfg = it.call(DF, [builder, "CTX"], {})
+                    # spec state: current value of every leaf
+                    cur = {}
+                    k = [0]
+
+                    def newval():
+                        k[0] += 1
+                        return ("w", k[0])
+
+                    def spec_set(path, v):
+                        for lp in leaves_of_path(path):
+                            x = v
+                            for i in lp[len(path):]:
+                                x = ("proj", i, x)
+                            cur[lp] = norm(x)
+
+                    def leaves_of_path(path):
+                        s = sh
+                        for i in path:
+                            s = s[1][i]
+                        return [path + r for r in leaves_of(s)]
+
+                    def spec_get(path):
+                        s = sh
+                        for i in path:
+                            s = s[1][i]
+
+                        def build(s_, p_):
+                            if s_ == "L":
+                                return cur[p_]
+                            return ("tuple", *[build(c, p_ + (i,)) for i, c in enumerate(s_[1])])
+                        return norm(build(s, path))
+                    v0 = newval()
+                    it.call_method(dfg, "__setitem__", [root, fresh(v0)])
+                    spec_set((), v0)
+                    ok, why = True, None
+                    moved = set()          # linear leaves whose value was read (moved out) and not assigned since
+                    for op in seq:
+                        path = op[1] if len(op) > 1 else ()
+                        try:
+                            if op[0].startswith("set"):
+                                v = newval()
+                                it.call_method(dfg, "__setitem__", [place(path), fresh(v)])
+                                spec_set(path, v)
+                                moved -= set(leaves_of_path(path))
+                            else:
+                                if linear and moved & set(leaves_of_path(path)):
+                                    break      # precondition of a read (linearity, C06): every leaf below holds a value
+                                w = it.call_method(dfg, "__getitem__", [place(path)])
+                                got, want = norm(val[w]), spec_get(path)
+                                if got != want:
+                                    ok, why = False, f"{op}: wire holds {got}, current value is {want}"
+                                    break
+                                if linear:
+                                    moved |= set(leaves_of_path(path))
+                        except PyRaise as ex:
+                            ok, why = False, f"{op}: raised {ex.exc!r:.120}"
+                            break
+                    results.append((seq, ok, why))
+                return results
+            paths = e.explore(t)
+
+            def post(p):
+                if p.kind != "return":
+                    return z3.BoolVal(False)
+                bad = [r for r in p.value if not r[1]]
+                if bad:
+                    p.ctx.ghost["why"] = f"sequence {bad[0][0]}: {bad[0][2]}"
+                return z3.BoolVal(not bad)
+            whys = []
+            outs = chk.prove_paths(f"DFContainer[{sname},{'linear' if linear else 'copyable'}-leaves;{len(seqs)} operation sequences]:every-read-returns-the-current-value(no-stale-packed-wire)", paths,
+                                   lambda p: (lambda r: (whys.append(p.ctx.ghost.get("why")), r)[1])(post(p)), func=f"{CC}:DFContainer.__setitem__",
+                                   replay=lambda m_: {"script": REPLAY_DFC, "input": {}})
+            for o in outs:
+                if o.status == "refuted" and whys and whys[0]:
+                    o.detail = (o.detail + " " if o.detail else "") + whys[0]
+            n_ok += 1
+    chk.record("DFContainer:shapes-explored", n_ok == 6, str(n_ok), kind="reachability")
+    chk.use_engine(e)
+
+
+REPLAY_DFC = r'''
+import guppy_plainbool
+import tempfile, importlib.util, os, sys, shutil
+src = """from guppylang import guppy
+from guppylang.std.builtins import result, owned, array
+@guppy.struct
+class S:
+    xs: array[int, 2]
+    ys: array[int, 2]
+@guppy
+def eat(s: S @owned) -> None:
+    result("x", s.xs[0])
+    result("y", s.ys[1])
+@guppy
+def lend(t: tuple[array[int, 2], array[int, 2]]) -> None:
+    t[0][0] = t[0][0] + 1
+@guppy
+def main() -> None:
+    s = S(array(1, 2), array(3, 4))
+    eat(s)
+    s.xs = array(5, 6)
+    s.ys = array(7, 8)
+    eat(s)
+    t = (array(1, 2), array(3, 4))
+    lend(t)
+    lend(t)
+    result("t", t[0][0])
+"""
+d = tempfile.mkdtemp(dir=os.environ.get("TMPDIR", "/var/tmp")); fn = os.path.join(d, "replay_c07d.py"); open(fn, "w").write(src)
+spec = importlib.util.spec_from_file_location("replay_c07d", fn); m = importlib.util.module_from_spec(spec); sys.modules["replay_c07d"] = m
+try:
+    spec.loader.exec_module(m)
+    m.main.check()
+    try:
+        got = [list(x) for x in list(m.main.emulator(n_qubits=1).run().results)[0].entries]
+        want = [["x", 1], ["y", 4], ["x", 5], ["y", 8], ["t", 3]]
+        out = {"violates": got != want, "observed": got, "required": want}
+    except Exception as ex:
+        out = {"violates": "more than one connection" in str(ex) or "alidation" in str(ex), "observed": "accepted by check(), but the HUGR is rejected: " + str(ex)[:300].replace("\\n", " ")}
+except Exception as ex:
+    out = {"violates": False, "error": repr(ex)[:300]}
+shutil.rmtree(d, ignore_errors=True)
+print(json.dumps(out))
+'''
